@@ -104,7 +104,10 @@ static int put_new_room(enum policy pol, bool empty) {
         RETAINED(C, fresh, key, val);
     } else {
         __CPROVER_assert(g_m.create_fails, "put of a new key fails only when the hash table cannot create the entry");
-        LHT_ASSERT_CALLS(0, NULL, 0, NULL, 1, fresh, 1);
+        /* a node allocated for the entry that could not be created is given back (no leak); whether one is allocated
+         * before the hash table is asked is the implementation's business */
+        LHT_ASSERT_CALLS(0, NULL, 0, NULL, g_m.calloc_calls, fresh, g_m.calloc_calls);
+        __CPROVER_assert(g_m.calloc_calls <= 1, "node storage: at most one allocation per put");
     }
     lht_check(&g_e);
     __CPROVER_assert(lht_abs_size(&g_e) <= max_items, "capacity: never more than max_items entries");
